@@ -13,6 +13,10 @@ import CalVerif.Spec.BiffEnc
     dec <fmts> <is1904> <sst> <hex>         → a worksheet substream through `sheetRange`:
                                               `ok <range>` | `err:<class>` | `panic:<fn>` | `fuel`
     enc <sst> <cells>                       → hex of `substream env S λ` (BOF, cell records, EOF)
+    wb <fmts> <is1904> <sst> <offsets> <hex> → the sheet part of `parse_workbook` with its workbook-wide scan counter
+                                              (`workbookSheets`; offsets = lbPlyPos values joined by `,`): `ok <range>|<range>|…`
+                                              (as `ok #<FNV-64 of that text>:<sheets>` when longer than 4000 characters)
+                                              | `err:<class>` | `panic:<fn>` | `fuel`
     frame <hex>                             → `items`: `<typ>=<hex>[+<hex>…]` per record, `;`-separated, `!<class>` for a failure
 
     fmts: one letter per XF (`o` other, `d` date-time, `t` time-delta) or `-`; sst: strings separated by `/`
@@ -211,6 +215,15 @@ def handle (line : String) : String :=
     | some sst, some cs =>
       Wire.hexOfBytes (substream (mkEnv [] false sst) (cs.map (·.1)) (cs.map (·.2)))
     | _, _ => "bad-op"
+  | ["wb", fmts, f1904, sst, offs, hx] =>
+    match parseFmts fmts, parseSst sst, (offs.splitOn ",").mapM String.toNat?, Wire.bytesOfHex hx with
+    | some fmts, some sst, some offs, some d =>
+      showRes (fun (rs : List (Range.Rng Val)) =>
+        let text := "|".intercalate (rs.map showRange)
+        if text.length > 4000 then
+          s!"#{(text.toUTF8.foldl (fun h b => fnvByte h b.toUInt64) 0xcbf29ce484222325).toNat}:{rs.length}"
+        else text) (workbookSheets (mkEnv fmts (f1904 = "1") sst) d offs)
+    | _, _, _, _ => "bad-op"
   | ["frame", hx] => match Wire.bytesOfHex hx with
     | some d => showItems (items d)
     | none => "bad-op"
